@@ -1,18 +1,41 @@
 (* Correspondence + property predicate for C15 *)
 From Fnd Require Export Base.Prelude Model.QueryStub.
 
-Record case := mkCase {
-  c_route : qroute; c_sender : bool; c_acl_changed : bool;
-  c_body : list N;          (* stub operations the scripted body attempts, in order *)
-  o_effects : list N;       (* mutating operations that reached the peer during the invocation (0: a ledger write of the framework) *)
-  o_state_changed : bool    (* committed ledger differs after the invocation *)
-}.
+Inductive case :=
+| mkCase (c_route : qroute) (c_sender : bool) (c_acl_changed : bool)
+    (c_body : list N)          (* stub operations the scripted body attempts, in order *)
+    (o_effects : list N)       (* mutating operations that reached the peer during the invocation (0: a ledger write of the framework) *)
+    (o_state_changed : bool)   (* committed ledger differs after the invocation *)
+| mkReads (committed : list (N * list N))   (* committed values of the keys the body touches *)
+    (body : list qop)          (* the body with its data *)
+    (o_reads : list (list N))  (* what the reads of the body returned, in order *)
+    (o_effects : list N) (o_state_changed : bool).
+
+Definition reads_of (xs : list (option (list N))) : list (list N) :=
+  flat_map (fun x => match x with Some v => [v] | None => [] end) xs.
 
 Definition corr (c : case) : bool :=
-  bool_decide (effects (run_query (c_route c) (c_sender c) (c_acl_changed c) (c_body c)) = o_effects c).
+  match c with
+  | mkCase r s a body eff _ => bool_decide (effects (run_query r s a body) = eff)
+  | mkReads cm body rd eff _ =>
+    let '(p, xs) := run_with wrapped_step (Peer (list_to_map cm) [] None []) body in
+    bool_decide (reads_of xs = rd) && bool_decide (eff = []) &&
+    match writes p, event p, others p with [], None, [] => true | _, _, _ => false end
+  end.
 
-Definition holds (c : case) : bool := bool_decide (o_effects c = []) && negb (o_state_changed c).
+(* a query changes nothing - and sees the committed ledger only, whatever it attempted before reading *)
+Definition holds (c : case) : bool :=
+  match c with
+  | mkCase _ _ _ _ eff changed => bool_decide (eff = []) && negb changed
+  | mkReads cm body rd eff changed =>
+    bool_decide (eff = []) && negb changed &&
+    bool_decide (rd = flat_map (fun o => match o with QGet k => [default [] ((list_to_map cm : gmap N (list N)) !! k)] | _ => [] end) body)
+  end.
 
 Definition label (c : case) : N :=
-  (match c_route c with QDirect => 1 | QTask => 2 end + (if c_sender c then 4 else 0) + (if c_acl_changed c then 8 else 0) +
-   (if existsb mutating (c_body c) then 16 else 0))%N.
+  match c with
+  | mkCase r s a body _ _ =>
+    (match r with QDirect => 1 | QTask => 2 end + (if s then 4 else 0) + (if a then 8 else 0) +
+     (if existsb mutating body then 16 else 0))%N
+  | mkReads _ body _ _ _ => (32 + (if existsb is_write body then 64 else 0))%N
+  end.
